@@ -1,0 +1,22 @@
+//! Logical clock override for the /verif harness: when set, `now_millis`, `now_millis_i64`
+//! and `NamingActor::time_check` read this value instead of the system clock.
+use std::sync::atomic::{AtomicI64, Ordering};
+
+static CLOCK: AtomicI64 = AtomicI64::new(i64::MIN);
+
+pub fn get() -> Option<i64> {
+    let v = CLOCK.load(Ordering::SeqCst);
+    if v == i64::MIN {
+        None
+    } else {
+        Some(v)
+    }
+}
+
+pub fn set(v: i64) {
+    CLOCK.store(v, Ordering::SeqCst);
+}
+
+pub fn clear() {
+    CLOCK.store(i64::MIN, Ordering::SeqCst);
+}
